@@ -18,9 +18,41 @@ def default_of(sort):
     k = str(sort)
     d = _DEFAULTS.get(k)
     if d is None:
-        d = z3.Const('dflt!' + k.replace(' ', '_').replace('(', '_').replace(')', '_'), sort)
+        d = _value_of(sort, 0)
+        if d is None:
+            d = z3.Const('dflt!' + k.replace(' ', '_').replace('(', '_').replace(')', '_'), sort)
         _DEFAULTS[k] = d
     return d
+
+
+def _value_of(sort, depth):
+    '''A closed *value* of the sort where one can be written down (cvc5 accepts only values in
+    constant arrays): 0, false, the empty sequence, the first constructor of a datatype ...'''
+    if depth > 4:
+        return None
+    if sort == z3.IntSort():
+        return z3.IntVal(0)
+    if sort == z3.BoolSort():
+        return z3.BoolVal(False)
+    if isinstance(sort, z3.SeqSortRef):
+        return z3.Empty(sort)
+    if isinstance(sort, z3.ArraySortRef):
+        r = _value_of(sort.range(), depth + 1)
+        return z3.K(sort.domain(), r) if r is not None else None
+    if isinstance(sort, z3.DatatypeSortRef):
+        for ci in range(sort.num_constructors()):
+            c = sort.constructor(ci)
+            args = []
+            ok = True
+            for ai in range(c.arity()):
+                a = _value_of(c.domain(ai), depth + 1)
+                if a is None:
+                    ok = False
+                    break
+                args.append(a)
+            if ok:
+                return c(*args) if args else c()
+    return None
 
 
 def l_len(t, z):
@@ -37,7 +69,11 @@ def l_mk(t, n, arr):
 
 def l_empty(t):
     es = t.elem.sort()
-    return l_mk(t, z3.IntVal(0), z3.K(z3.IntSort(), default_of(es)))
+    d = default_of(es)
+    if z3.is_const(d) and d.decl().kind() == z3.Z3_OP_UNINTERPRETED:
+        # no closed value of this sort: one fixed (uninterpreted) array stands for "all default"
+        return l_mk(t, z3.IntVal(0), z3.Const('emptyarr!' + str(es), z3.ArraySort(z3.IntSort(), es)))
+    return l_mk(t, z3.IntVal(0), z3.K(z3.IntSort(), d))
 
 
 def l_get(t, z, i):
